@@ -282,12 +282,21 @@ def run_case(case, R):
                 if not ops.is_plain(tree, fmt):
                     continue
                 doc = _mutate(cc.ConfigFormat.get(fmt).dumps(cfg, tree), op["mut"], fmt)
+                # classification only: does the mutated document still parse? (a document that parses and is then
+                # rejected half way - by validation or for an unknown key - is not one of the listed kinds)
+                try:
+                    parsed = isinstance(cc.ConfigFormat.get(fmt).loads(world.schema(key_filename=keyfile), doc), dict)
+                except Exception:
+                    parsed = False
                 try:
                     cfg.loads(doc, fmt)
                     continue  # the mutated document still parses and loads: nothing failed
                 except cc.ValidationError:
                     continue  # parsed, then rejected by validation half way: not a listed kind
                 except Exception:
+                    if parsed:
+                        R.label("bad_doc:parsed-then-rejected")
+                        continue
                     judged = True
                     depth = 1
             elif name == "bad_include":
